@@ -26,6 +26,8 @@ structure Mgr where
   running : Bool := false
   queued : Int := 0
   lastOk : Bool := false
+  /-- ghost: index of the dequeuer instance currently looping for this generation -/
+  loop : Option Nat := none
 deriving Repr
 
 inductive AMethod | snap | sub | usb
@@ -41,12 +43,12 @@ deriving Repr
 inductive Pc
   | inPool                                  -- submitted, not yet taken by a worker
   | atLoop                                  -- about to take the item lock at the loop head
-  | put (line : String) (next : Pc)         -- about to enqueue `line`
+  | put (t : Task) (line : String) (next : Pc)   -- about to enqueue `line` while processing `t`
   | setCode (t : Task)                      -- about to publish the id under the manager lock
   | callBegin (m : AMethod) (t : Task)      -- about to invoke the adapter
   | inCall (m : AMethod) (t : Task)         -- inside the adapter call
   | eosRead (t : Task)                      -- library EOS: about to read the id under the manager lock
-  | clearCode                               -- about to clear the id under the manager lock
+  | clearCode (t : Task)                    -- about to clear the id under the manager lock (after USB `t`)
   | dec                                     -- about to run _dec_queued under the manager lock
   | done
 deriving Repr
@@ -103,6 +105,25 @@ structure IState where
   ext : Nat → Option String := fun _ => none
   out : List String := []
   log : List Ev := []
+  /-- ghost: requests in the order the reader dispatched them -/
+  arr : List Task := []
+  /-- ghost: requests whose processing is complete, in completion order -/
+  fin : List Task := []
+  /-- ghost: ids for which a reply has been enqueued, in order -/
+  repl : List String := []
+  /-- ghost: ids published with `setCode`, in order -/
+  execd : List String := []
+  /-- ghost: last subscribe/unsubscribe invocation that ended: (method, request id, returned normally) -/
+  lastInv : Option (AMethod × String × Bool) := none
+  /-- ghost: id of the subscription whose forwarding window is open (subscribe() begun, and either still
+      running or returned normally with the matching unsubscribe() not yet begun) -/
+  fwd : Option String := none
+  /-- ghost: an unsubscription has been fully processed (id cleared) and no later subscription published -/
+  cleared : Bool := false
+  /-- ghost: an unsubscription found no manager (the request is dropped unanswered) -/
+  lost : List Task := []
+  /-- ghost: subscription requests that were skipped (late branch) -/
+  late : List Task := []
 
 /-- observable effects of a step (compared with what the shim saw in the real chunk). -/
 inductive Eff
@@ -154,6 +175,12 @@ def setMgr (s : IState) (g : Nat) (m : Mgr) : IState := { s with mgrs := upd s.m
 def addLog (s : IState) (evs : List Ev) : IState := { s with log := s.log ++ evs }
 def addOut (s : IState) (line : String) : IState := { s with out := s.out ++ [line] }
 
+/-- the task finished: ghost `fin`. -/
+def finish (s : IState) (t : Task) : IState := { s with fin := s.fin ++ [t] }
+
+/-- a reply for `t` is enqueued: ghost `repl`. -/
+def replied (s : IState) (t : Task) : IState := { s with repl := s.repl ++ [t.id] }
+
 def istep (s : IState) : IAct → Option (IState × List Eff)
   | .lockMgr t =>
     if s.rheld.isSome then none else
@@ -161,17 +188,18 @@ def istep (s : IState) : IAct → Option (IState × List Eff)
     | some g =>
       let m := s.mgrs g
       let s1 := setMgr s g { m with queued := m.queued + 1 }
-      let s2 : IState := { s1 with rheld := some (t, g) }
+      let s2 : IState := { s1 with rheld := some (t, g), arr := s.arr ++ [t] }
       some (addLog s2 [.arrive t], [])
     | none =>
       if t.isSub then
         let g := s.nmgr
         let fresh : Mgr := { queued := 1 }
-        let s1 : IState := { s with mgrs := upd s.mgrs g fresh, nmgr := g + 1, active := some g, rheld := some (t, g) }
+        let s1 : IState := { s with mgrs := upd s.mgrs g fresh, nmgr := g + 1, active := some g, rheld := some (t, g), arr := s.arr ++ [t] }
         some (addLog s1 [.arrive t], [])
       else
-        -- do_unsubscription: "Task list expected for item": error logged, request dropped
-        some (addLog s [.arrive t, .noMgr t], [])
+        -- do_unsubscription: "Task list expected for item": error logged, request dropped unanswered
+        let s1 : IState := { s with arr := s.arr ++ [t], fin := s.fin ++ [t], lost := s.lost ++ [t] }
+        some (addLog s1 [.arrive t, .noMgr t], [])
   | .addTask =>
     match s.rheld with
     | none => none
@@ -182,7 +210,7 @@ def istep (s : IState) : IAct → Option (IState × List Eff)
         some ({ s1 with rheld := none }, [])
       else
         let k := s.ninst
-        let s1 := setMgr s g { m with q := m.q ++ [t], running := true }
+        let s1 := setMgr s g { m with q := m.q ++ [t], running := true, loop := some k }
         let fresh : Inst := { gen := g }
         let s2 : IState := { s1 with rheld := none, insts := upd s.insts k fresh, ninst := k + 1 }
         some (addLog s2 [.submit k g], [.submit k])
@@ -201,8 +229,8 @@ def istep (s : IState) : IAct → Option (IState × List Eff)
         let ok := if i.deq = 0 then m.lastOk else i.ok
         match m.q with
         | [] =>
-          some (addLog (setInst (setMgr s i.gen { m with running := false, lastOk := ok }) k
-                    { i with ok := ok, pc := .dec }) [.exit_ k], [])
+          let s1 := setMgr s i.gen { m with running := false, lastOk := ok, loop := none }
+          some (addLog (setInst s1 k { i with ok := ok, pc := .dec }) [.exit_ k], [])
         | t :: rest =>
           let islast := rest.isEmpty
           let s1 := setMgr s i.gen { m with q := rest }
@@ -211,24 +239,29 @@ def istep (s : IState) : IAct → Option (IState × List Eff)
           if t.isSub then
             if !islast then
               -- do_late_task: "too late" reply, outcome := False
-              some (addLog (setInst s1 k { i1 with ok := false, pc := .put (replyLine t (writeError "SUB" subscribeLate)) .atLoop })
-                      [ev, .skip k t], [])
+              let s2 := setInst s1 k { i1 with ok := false, pc := .put t (replyLine t (writeError "SUB" subscribeLate)) .atLoop }
+              let s3 : IState := { s2 with late := s.late ++ [t] }
+              some (addLog s3 [ev, .skip k t], [])
             else
               some (addLog (setInst s1 k { i1 with pc := .setCode t }) [ev], [])
           else
             if ok then
               some (addLog (setInst s1 k { i1 with pc := .callBegin .usb t }) [ev], [])
             else
-              some (addLog (setInst s1 k { i1 with pc := .put (replyLine t (writeVoid "USB")) .clearCode })
-                      [ev, .skip k t], [])
+              some (addLog (setInst s1 k { i1 with pc := .put t (replyLine t (writeVoid "USB")) (.clearCode t) }) [ev, .skip k t], [])
       | _ => none
     else none
   | .put k =>
     if k < s.ninst then
       let i := s.insts k
       match i.pc with
-      | .put line next =>
-        some (addLog (addOut (setInst s k { i with pc := next }) line) [.lsnEnq (.inst k) line], [.enqueue line])
+      | .put t line next =>
+        let s1 := addLog (addOut (setInst s k { i with pc := next }) line) [.lsnEnq (.inst k) line]
+        -- ghost: a put that leads back to the loop head or to clearCode is the reply of `t`
+        match next with
+        | .atLoop => some (finish (replied s1 t) t, [.enqueue line])
+        | .clearCode _ => some (replied s1 t, [.enqueue line])
+        | _ => some (s1, [.enqueue line])
       | _ => none
     else none
   | .setCode k =>
@@ -237,8 +270,9 @@ def istep (s : IState) : IAct → Option (IState × List Eff)
       match i.pc with
       | .setCode t =>
         let m := s.mgrs i.gen
-        some (addLog (setInst (setMgr s i.gen { m with code := some t.id }) k { i with pc := .callBegin .snap t })
-                [.setCode k t.id], [])
+        let s1 := setInst (setMgr s i.gen { m with code := some t.id }) k { i with pc := .callBegin .snap t }
+        let s2 : IState := { s1 with execd := s.execd ++ [t.id], cleared := false }
+        some (addLog s2 [.setCode k t.id], [])
       | _ => none
     else none
   | .callBegin k =>
@@ -246,7 +280,9 @@ def istep (s : IState) : IAct → Option (IState × List Eff)
       let i := s.insts k
       match i.pc with
       | .callBegin m t =>
-        some (addLog (setInst s k { i with pc := .inCall m t }) [.begin_ k m t], [.adapterBegin m])
+        let s1 := setInst s k { i with pc := .inCall m t }
+        let s2 : IState := { s1 with fwd := match m with | .sub => some t.id | .usb => none | .snap => s.fwd }
+        some (addLog s2 [.begin_ k m t], [.adapterBegin m])
       | _ => none
     else none
   | .callEnd k o =>
@@ -255,20 +291,21 @@ def istep (s : IState) : IAct → Option (IState × List Eff)
       match i.pc, i.lsn with
       | .inCall m t, none =>
         let okc := match o with | .ret _ => true | .raise _ => false
-        let s1 := addLog s [.end_ k m t okc]
+        let s0 := addLog s [.end_ k m t okc]
+        let s1 : IState := { s0 with lastInv := match m with | .snap => s.lastInv | _ => some (m, t.id, okc), fwd := match m, o with | .sub, .raise _ => none | _, _ => s.fwd }
         match m, o with
         | .snap, .ret isF =>
           some (setInst s1 k { i with pc := if isF then .eosRead t else .callBegin .sub t }, [.adapterEnd m])
         | .snap, .raise e =>
-          some (setInst s1 k { i with ok := false, pc := .put (replyLine t (writeError "SUB" e)) .atLoop }, [.adapterEnd m])
+          some (setInst s1 k { i with ok := false, pc := .put t (replyLine t (writeError "SUB" e)) .atLoop }, [.adapterEnd m])
         | .sub, .ret _ =>
-          some (setInst s1 k { i with ok := true, pc := .put (replyLine t (writeVoid "SUB")) .atLoop }, [.adapterEnd m])
+          some (setInst s1 k { i with ok := true, pc := .put t (replyLine t (writeVoid "SUB")) .atLoop }, [.adapterEnd m])
         | .sub, .raise e =>
-          some (setInst s1 k { i with ok := false, pc := .put (replyLine t (writeError "SUB" e)) .atLoop }, [.adapterEnd m])
+          some (setInst s1 k { i with ok := false, pc := .put t (replyLine t (writeError "SUB" e)) .atLoop }, [.adapterEnd m])
         | .usb, .ret _ =>
-          some (setInst s1 k { i with pc := .put (replyLine t (writeVoid "USB")) .clearCode }, [.adapterEnd m])
+          some (setInst s1 k { i with pc := .put t (replyLine t (writeVoid "USB")) (.clearCode t) }, [.adapterEnd m])
         | .usb, .raise e =>
-          some (setInst s1 k { i with pc := .put (replyLine t (writeError "USB" e)) .clearCode }, [.adapterEnd m])
+          some (setInst s1 k { i with pc := .put t (replyLine t (writeError "USB" e)) (.clearCode t) }, [.adapterEnd m])
       | _, _ => none
     else none
   | .eosRead k =>
@@ -278,7 +315,7 @@ def istep (s : IState) : IAct → Option (IState × List Eff)
       | .eosRead t =>
         match readCode s, (readCode s).bind (fun id => eventLine s.item id .eos) with
         | some id, some line =>
-          some (addLog (setInst s k { i with pc := .put line (.callBegin .sub t) }) [.libEos k t id], [])
+          some (addLog (setInst s k { i with pc := .put t line (.callBegin .sub t) }) [.libEos k t id], [])
         | _, _ => some (setInst s k { i with pc := .callBegin .sub t }, [])
       | _ => none
     else none
@@ -286,10 +323,11 @@ def istep (s : IState) : IAct → Option (IState × List Eff)
     if k < s.ninst then
       let i := s.insts k
       match i.pc with
-      | .clearCode =>
+      | .clearCode t =>
         let m := s.mgrs i.gen
-        some (addLog (setInst (setMgr s i.gen { m with code := none }) k { i with pc := .atLoop })
-                [.clearCode k], [])
+        let s1 := setInst (setMgr s i.gen { m with code := none }) k { i with pc := .atLoop }
+        let s2 : IState := { s1 with cleared := true }
+        some (addLog (finish s2 t) [.clearCode k], [])
       | _ => none
     else none
   | .dec k =>
